@@ -18,8 +18,9 @@ FLOOR_BASE = {"quick": 300, "thorough": 10000}    # case counts the floors below
 def FLOORS(tier):
     q = tier == "quick"
     f = {"result-contract-checks": 2500 if q else 10 ** 5, "empty-or-constant-model": 60, "matrix-with-gaps": 100,
-         "with-initial_state": 600, "num_anneals<=0": 300, "hook-dE-checks": 10 ** 5, "schedule:one-shot-iterator": 30, "second-anneal-after-in-place-edit": 150,
-         "second-anneal:cancel": 20, "second-anneal:set0": 20}
+         "with-initial_state": 600, "num_anneals<=0": 300, "hook-dE-checks": 10 ** 5, "hook-exactness-verdicts": 2000, "schedule:one-shot-iterator": 30, "second-anneal-after-in-place-edit": 150,
+         "second-anneal:cancel": 20, "second-anneal:set0": 20, "returned-state-scribbled": 300,
+         "user-mapping:set_mapping": 40, "user-mapping:set_reverse_mapping": 40, "coefficients:wide-big": 100, "coefficients:wide-small": 60}
     for fn in A.FUNCS:
         for t in A.ACCEPT[fn]:
             f["cell:%s:%s" % (fn, t)] = 25 if q else 1000
@@ -54,13 +55,34 @@ def case(ctx, rng, idx):
         return
     if not A.check_results(ctx, cfg, res):
         return
-    c = A.counters()
-    if c is not None:
-        ctx.count("hook-dE-checks", c[0])
-        if c[1] or c[2]:
-            ctx.violation("kernel-hook:" + ("dE-mismatch" if c[1] else "index-out-of-bounds"),
-                          "H2 hook reported mismatches=%d bounds=%d" % (c[1], c[2]), w)
+    if cfg["user_mapping"]:
+        ctx.cat("user-mapping:" + cfg["user_mapping"])
+    ctx.cat("coefficients:" + cfg["coef_kind"])
+    if not A.hook_verdict(ctx, w, exact=cfg["coef_kind"] != "given"):
+        return
+    # the caller owns what it got back: scribbling on one returned state touches neither the other results nor the
+    # results of the next (identical) call
+    if len(res) and rng.random() < 0.3:
+        before = [(dict(r.state), r.value) for r in res]
+        st0 = res[0].state
+        if rng.random() < 0.5:
+            st0.clear()
+        else:
+            for x in list(st0):
+                st0[x] = 7
+            st0["scribble"] = 3
+        ctx.cat("returned-state-scribbled")
+        for j, r in enumerate(res):
+            if j and (dict(r.state), r.value) != before[j]:
+                ctx.violation("results-share-state-dicts", "editing result 0's state changed result %d: %r -> %r" % (j, before[j][0], r.state), w)
+                return
+        kw2 = dict(callkw)
+        if "_schedule_values" in cfg["kw"]:
+            kw2["schedule"] = iter(list(cfg["kw"]["_schedule_values"]))
+        ok, res2 = ctx.call(cfg["fn"], fn, cfg["model"], _w=dict(w, note="same call again after the caller edited a returned state"), **kw2)
+        if not ok or not A.check_results(ctx, cfg, res2, tag="after-scribble:"):
             return
+        res = res2
     # second look: the same model object is edited in place (zero-sets included) and annealed again
     m = cfg["model"]
     if cfg["type"] != "dict" and len(m) and "initial_state" not in callkw and "_schedule_values" not in cfg["kw"] and rng.random() < 0.3:
